@@ -1,3 +1,3 @@
 SPECIFICATION Spec
-INVARIANTS Emit EmitVerdict CommentsAgree
+INVARIANTS Emit EmitVerdict CommentsAgree EmitExact ExactExists
 CHECK_DEADLOCK FALSE
